@@ -502,7 +502,11 @@ func (c *compiler) compile(tok *token) []instruction {
 		res = append(res, c.compile(tok.Tokens[sliceObj])...)
 		res = append(res, c.compile(tok.Tokens[sliceBegin])...)
 		res = append(res, c.compile(tok.Tokens[sliceEnd])...)
-		res = append(res, instruction{Code: codeSlice})
+		openEnd := 0
+		if end := tok.Tokens[sliceEnd]; end.Symbol == "(int)" && end.Text == "-1" {
+			openEnd = 1 // s[i:] is parsed with an end of -1
+		}
+		res = append(res, instruction{Code: codeSlice, A: reg(openEnd)})
 	case "func":
 		const funcArguments, funcReturns, funcBlock = 0, 1, 2
 		tmp := c.Locals
